@@ -44,6 +44,18 @@ mod imp {
         let o = classify(r, out);
         StepOut { class: o.class, output: o.output, value: o.value, detail: o.detail, frames: vm.verif_frames_len() }
     }
+    /// a call through a handle the host took earlier
+    pub fn held_call(vm: &mut VM, h: Option<&aelys_driver::CallableFunction>, arg: i64) -> StepOut {
+        use aelys_runtime::verif;
+        let h = match h { Some(h) => h.clone(), None => return StepOut { class: "runtime:NotCallable".into(), output: String::new(), value: String::new(), detail: "no handle".into(), frames: vm.verif_frames_len() } };
+        verif::sink_install();
+        verif::budget_set(2_000_000);
+        let r = guarded(std::panic::AssertUnwindSafe(|| { let v = h.call(vm, &[Value::int(arg)])?; let s = vm.value_to_string(v); Ok((v, s)) }));
+        let out = verif::sink_take();
+        verif::budget_set(u64::MAX);
+        let o = classify(r, out);
+        StepOut { class: o.class, output: o.output, value: o.value, detail: o.detail, frames: vm.verif_frames_len() }
+    }
     pub fn repl_input(vm: &mut VM, src: &str, opt: u32) -> StepOut {
         let o = run_on_vm(vm, src, opt, 2_000_000);
         StepOut { class: o.class, output: o.output, value: o.value, detail: o.detail, frames: vm.verif_frames_len() }
@@ -84,6 +96,8 @@ mod imp {
         CopyFn { dst: String, src: String, fresh: bool },
         /// an expression statement that touches no global (`1 + 1`): the input's unit has the empty layout
         Quiet,
+        /// source text outside the modelled fragment with the output it must print (closures over locals, ...)
+        Script { text: String, out: String },
         PrintVar { name: String },
         PrintCall { f: String, arg: i64 },
         PrintApply { a: String, f: String, arg: i64 },   // println(a(f, arg)): a takes a function value and has no globals
@@ -100,6 +114,11 @@ mod imp {
         Host { f: String, arg: i64, cached: bool, extra: bool },
         /// the host binds a global by name: VM::set_global
         HostSet { name: String, val: i64 },
+        /// the host takes a handle of a function (aelys_driver::get_function) and keeps it / calls through a kept handle
+        Hold { f: String },
+        CallHeld { f: String, arg: i64 },
+        /// collections at every safepoint from here on (true) / as the VM decides (false)
+        Gc(bool),
     }
     #[derive(Clone, Copy, Debug, PartialEq)]
     pub enum Expect { Ok, CompileError, RuntimeError }
@@ -125,6 +144,7 @@ mod imp {
             } },
             Stmt::CopyFn { dst, src, fresh } => if *fresh { format!("let mut {} = {}", dst, src) } else { format!("{} = {}", dst, src) },
             Stmt::Quiet => "1 + 1".to_string(),
+            Stmt::Script { text, .. } => text.clone(),
             Stmt::PrintVar { name } => format!("println({})", name),
             Stmt::PrintCall { f, arg } => format!("println({}({}))", f, arg),
             Stmt::PrintApply { a, f, arg } => format!("println({}({}, {}))", a, f, arg),
@@ -139,10 +159,12 @@ mod imp {
     #[derive(Clone)]
     pub struct Oracle { pub vars: HashMap<String, (Val, bool)>, pub fns: HashMap<String, FnDef>, pub imported: HashMap<String, i64>,
                         /// modules whose top level has run in this session, their counters, host-callable names of their bump functions
-                        pub loaded: HashSet<usize>, pub modn: HashMap<usize, i64>, pub bump_fns: HashMap<String, usize> }
+                        pub loaded: HashSet<usize>, pub modn: HashMap<usize, i64>, pub bump_fns: HashMap<String, usize>,
+                        /// closures defined by Script statements that the host may call: name -> what is added to the argument
+                        pub script_fns: HashMap<String, i64> }
     pub struct OStep { pub class: &'static str, pub output: String, pub value: String }
     impl Oracle {
-        pub fn new() -> Self { Oracle { vars: HashMap::new(), fns: HashMap::new(), imported: HashMap::new(), loaded: HashSet::new(), modn: HashMap::new(), bump_fns: HashMap::new() } }
+        pub fn new() -> Self { Oracle { vars: HashMap::new(), fns: HashMap::new(), imported: HashMap::new(), loaded: HashSet::new(), modn: HashMap::new(), bump_fns: HashMap::new(), script_fns: HashMap::new() } }
         /// Err(()) = runtime failure (division by zero)
         /// Ok(None): the call's value is null
         fn call(&mut self, f: &str, arg: i64, out: &mut String) -> Result<Option<i64>, ()> {
@@ -183,6 +205,7 @@ mod imp {
                     Stmt::Def { name, def } => { self.vars.remove(name); self.fns.insert(name.clone(), def.clone()); }
                     Stmt::CopyFn { dst, src, .. } => { if let Some(d) = self.fns.get(src).cloned() { self.vars.remove(dst); self.fns.insert(dst.clone(), d); } }
                     Stmt::Quiet => {}
+                    Stmt::Script { out: o, .. } => { out.push_str(o); if expect == Expect::RuntimeError { return OStep { class: "runtime-error", output: out, value: String::new() }; } }
                     Stmt::PrintVar { name } => { out.push_str(&self.vars[name].0.show()); out.push('\n'); }
                     Stmt::PrintLit { text } => { out.push_str(text); out.push('\n'); }
                     Stmt::PrintCall { f, arg } | Stmt::PrintApply { f, arg, .. } => match self.call(f, *arg, &mut out) {
@@ -198,6 +221,7 @@ mod imp {
             OStep { class: "ok", output: out, value: String::new() }
         }
         pub fn host(&mut self, f: &str, arg: i64) -> OStep {
+            if let Some(k) = self.script_fns.get(f) { return OStep { class: "ok", output: String::new(), value: (arg + k).to_string() }; }
             if let Some(mi) = self.bump_fns.get(f).copied() { let n = self.modn.get(&mi).copied().unwrap_or(0) + 1; self.modn.insert(mi, n);
                 return OStep { class: "ok", output: String::new(), value: n.to_string() }; }
             if let Some(k) = self.imported.get(f) { return OStep { class: "ok", output: String::new(), value: (arg * k).to_string() }; }
@@ -458,7 +482,8 @@ mod imp {
             // the import of an input that was rejected at compile time must not have taken effect
             if let Some(st) = self.queued.pop() {
                 // still valid? (a queued host call of a function that an input in between removed is dropped)
-                match &st { Step::Host { f, .. } if !self.o.fns.contains_key(f) => {}, Step::HostSet { name, .. } if !self.o.vars.contains_key(name) => {}, _ => return st }
+                match &st { Step::Host { f, .. } if !self.o.fns.contains_key(f) && !self.o.script_fns.contains_key(f) => {},
+                            Step::Hold { f } | Step::CallHeld { f, .. } if !self.o.fns.contains_key(f) => {}, Step::HostSet { name, .. } if !self.o.vars.contains_key(name) => {}, _ => return st }
             }
             if let Some(p) = self.rejected_probe.pop() {
                 return Step::Input { stmts: vec![Stmt::Raw { text: format!("println({})", p.text) }], expect: Expect::CompileError };
@@ -527,6 +552,44 @@ mod imp {
                     self.queued.push(Step::Input { stmts: vec![Stmt::Let { name: gname.clone(), mutable: false, val: Val::Int(v2) }], expect: Expect::Ok });
                     return Step::Input { stmts: vec![Stmt::Let { name: gname.clone(), mutable: false, val: Val::Int(v1) },
                                                      Stmt::Def { name: f.clone(), def: FnDef { home: f.clone(), tag: String::new(), kind: FnKind::ReadG(gname) } }], expect: Expect::Ok };
+                }
+            }
+            // directed: a closure ESCAPES from a function that then fails (stored in a global); later calls reuse the registers
+            // of the dead frame, another closure captures the same (base, register); collections in between
+            if self.rng.chance(1, 60) {
+                let id = { self.n += 1; self.n };
+                let v = self.rng.range_i64(10, 90);
+                let sc = |text: String, out: String| Stmt::Script { text, out };
+                let inp = |st: Stmt, e: Expect| Step::Input { stmts: vec![st], expect: e };
+                let gc = self.rng.chance(1, 2);
+                let mut seq: Vec<Step> = Vec::new();
+                seq.push(inp(sc(format!("fn mke{id}(x) {{ let mut c = {v}; e{id} = fn(y) {{ return c + y }}; nope{id}(0); return 1 / zero }}"), String::new()), Expect::Ok));
+                seq.push(inp(sc(format!("println(mke{id}(0))"), String::new()), Expect::RuntimeError));
+                if gc { seq.push(Step::Gc(true)); }
+                seq.push(inp(sc(format!("println(e{id}(0))"), format!("{}\n", v)), Expect::Ok));
+                seq.push(inp(sc(format!("fn wide{id}(a, b, c2) {{ return a + b + c2 }}\nprintln(wide{id}(100, 200, 300))"), "600\n".into()), Expect::Ok));
+                seq.push(inp(sc(format!("println(e{id}(1))"), format!("{}\n", v + 1)), Expect::Ok));
+                seq.push(inp(sc(format!("fn mkt{id}(x) {{ let mut d = 77; let g2 = fn(y) {{ return d + y }}; d = 78; return g2 }}\nlet q{id} = mkt{id}(0)\nprintln(q{id}(0))\nprintln(e{id}(2))"), format!("78\n{}\n", v + 2)), Expect::Ok));
+                seq.push(Step::Host { f: format!("e{id}"), arg: 3, cached: self.rng.chance(1, 2), extra: false });
+                if gc { seq.push(Step::Gc(false)); }
+                self.o.script_fns.insert(format!("e{id}"), v);
+                for st in seq.into_iter().rev() { self.queued.push(st); }
+                return inp(sc(format!("let mut e{id} = null\nfn nope{id}(x) {{ return zero }}"), String::new()), Expect::Ok);
+            }
+            // directed: the host keeps a handle of a function, the function is redefined, collections happen, the handle is used
+            if self.rng.chance(1, 12) {
+                let fnames: Vec<String> = { let mut v: Vec<String> = self.o.fns.iter().filter(|(k, d)| k.starts_with('f') && !self.fails(d)).map(|(k, _)| k.clone()).collect(); v.sort(); v };
+                if !fnames.is_empty() {
+                    let f = self.pick(&fnames);
+                    let tag = self.fresh("T");
+                    let newdef = FnDef { home: f.clone(), tag, kind: FnKind::AddK(self.rng.range_i64(1, 20)) };
+                    let junk = self.fresh("junk");
+                    let mut seq = vec![Step::Gc(true), Step::Input { stmts: vec![Stmt::Def { name: f.clone(), def: newdef }], expect: Expect::Ok },
+                                       Step::Input { stmts: vec![Stmt::Let { name: junk, mutable: true, val: Val::Str(self.fresh("s")) }, Stmt::PrintLit { text: self.fresh("p") }], expect: Expect::Ok },
+                                       Step::CallHeld { f: f.clone(), arg: arg_of(&f) }, Step::Gc(false), Step::CallHeld { f: f.clone(), arg: arg_of(&f) }];
+                    seq.reverse();
+                    for st in seq { self.queued.push(st); }
+                    return Step::Hold { f };
                 }
             }
             // directed: the host calls a closure that calls a global function and then mutates a global, right after the host
@@ -800,6 +863,7 @@ mod imp {
         let mut kinds: HashMap<&'static str, usize> = HashMap::new();
         let mut stale_entry = false;
         let mut sx = SessX::new();
+        let mut handles: HashMap<String, aelys_driver::CallableFunction> = HashMap::new();
         let mut loaded_mods: HashSet<usize> = HashSet::new();   // user modules whose top level has run in this session
         let mut old_model_off = false;                          // Model/GlobalsSync.v has no by-name set: its query ends there
         // the session's working directory: `needs <module>` in a REPL input is resolved relative to the current
@@ -813,6 +877,13 @@ mod imp {
         while k < nsteps || (!g.pending.is_empty() && k < nsteps + 16) {
             let step = g.step(k == 0, k >= nsteps);
             k += 1;
+            if let Step::Gc(on) = &step {
+                aelys_runtime::verif::gc_mode_set(if *on { 2 } else { 0 }, 0);
+                continue;
+            }
+            // a call through a kept handle is a host call by name as far as the models are concerned
+            let (step, held) = match step { Step::CallHeld { f, arg } => (Step::Host { f, arg, cached: true, extra: false }, true), st => (st, false) };
+            let mut skip_obs = false;
             let mut ops: Vec<String> = Vec::new();
             let (r, o): (StepOut, OStep);
             match &step {
@@ -925,6 +996,7 @@ mod imp {
                                     Stmt::CopyFn { dst, src, .. } => { s_body.push(format!("ICopy {}%N {}%N", names.id(dst), names.id(src)));
                                         if let Some(l) = fn_lay.get(src).cloned() { fn_lay.insert(dst.clone(), l); } }
                                     Stmt::Quiet => {}
+                                    Stmt::Script { .. } => { sx.fail("source outside the modelled fragment".into()); old_model_off = true; }
                                     Stmt::PrintVar { name } => s_body.push(format!("IPrint {}%N 0", names.id(name))),
                                     Stmt::PrintLit { text } => s_body.push(format!("IOut {}", zc(line_code(text)))),
                                     Stmt::Needs { .. } => {}
@@ -945,7 +1017,7 @@ mod imp {
                                     Stmt::Def { name, def } => { if let Some(l) = unit_lay.get(name) { fn_lay.insert(name.clone(), l.clone()); }
                                         ops.push(format!("OSetIdx {} {}", top_idx(name, &mut problems), 2_000_000 + def.tag.get(1..).and_then(|t| t.parse::<i64>().ok()).unwrap_or(0))) }
                                     Stmt::CopyFn { dst, .. } => ops.push(format!("OSetIdx {} 2999999", top_idx(dst, &mut problems))),
-                                    Stmt::Quiet => {}
+                                    Stmt::Quiet | Stmt::Script { .. } => {}
                                     Stmt::PrintVar { name } => ops.push(format!("OPrintIdx {} 0", top_idx(name, &mut problems))),
                                     Stmt::PrintLit { .. } => {}
                                     Stmt::Needs { .. } => {}
@@ -980,6 +1052,17 @@ mod imp {
                     }
                     sx.steps.push(format!("SInput [{}] {} {} [{}] [] []", s_imports.join("; "), *expect != Expect::CompileError, s_ltop, s_body.join("; ")));
                 }
+                Step::Gc(_) | Step::CallHeld { .. } => unreachable!(),
+                Step::Hold { f } => {
+                    *kinds.entry("host-takes-function-handle").or_insert(0) += 1;
+                    srcs.push(format!("@hold {}\n", f));
+                    let h = aelys_driver::get_function(&vm, f);
+                    let okh = h.is_ok();
+                    if let Ok(h) = h { handles.insert(f.clone(), h); }
+                    r = StepOut { class: if okh { "ok".into() } else { "runtime:NotCallable".into() }, output: String::new(), value: String::new(), detail: String::new(), frames: vm.verif_frames_len() };
+                    o = OStep { class: "ok", output: String::new(), value: String::new() };
+                    skip_obs = true;
+                }
                 Step::HostSet { name, val } => {
                     *kinds.entry("host-set-global").or_insert(0) += 1;
                     srcs.push(format!("@set {} {}\n", name, val));
@@ -1000,7 +1083,8 @@ mod imp {
                     // entry condition of a host call: an empty frame stack.  When it does not hold the step is still run and
                     // compared with the reference semantics, but it is not given to the model and the session ends there
                     stale_entry = vm.verif_frames_len() > 0;
-                    r = host_call_n(&mut vm, f, *arg, *cached, *extra);
+                    if held { *kinds.entry("host-call-through-kept-handle").or_insert(0) += 1; srcs.pop(); srcs.push(format!("@callheld {} {}\n", f, arg)); }
+                    r = if held { held_call(&mut vm, handles.get(f), *arg) } else { host_call_n(&mut vm, f, *arg, *cached, *extra) };
                     o = if *extra { OStep { class: "runtime-error", output: String::new(), value: String::new() } } else { g.o.host(f, *arg) };
                     if *extra {
                         // rejected by the arity check before anything is prepared or pushed: no model operations
@@ -1025,7 +1109,7 @@ mod imp {
             // observations: printed values (+ the host call's result), then the by-name map and the frame depth
             let mut ob: Vec<i64> = obs_of_output(&r.output);
             if matches!(step, Step::Host { .. }) && r.class == "ok" { ob.push(r.value.parse::<i64>().unwrap_or(999_999_997)); }
-            {
+            if !skip_obs {
                 let mut codes: Vec<i64> = r.output.lines().map(|l| line_code(l.trim_end())).collect();
                 if let Step::Host { f, .. } = &step { if r.class == "ok" && !g.o.imported.contains_key(f) { codes.push(line_code(&r.value)); } }
                 sx.expect.push(format!("([{}], {})", codes.iter().map(|x| zc(*x)).collect::<Vec<_>>().join("; "), if r.class == "ok" { "SOk" } else { "SErr" }));
@@ -1042,6 +1126,7 @@ mod imp {
             let same = real_steps.last() == oracle_steps.last() || (matches!(step, Step::Input { .. }) && class3(&r.class) == "ok" && o.class == "ok" && r.output == o.output);
             if !same || stale_entry { break; }
         }
+        aelys_runtime::verif::gc_mode_set(0, 0);
         let _ = std::env::set_current_dir(std::env::temp_dir());
         let _ = std::fs::remove_dir_all(&dir);
         let mut ks: Vec<String> = kinds.iter().map(|(k, v)| format!("{}={}", k, v)).collect();
@@ -1063,6 +1148,7 @@ fn main() {
         let text = std::fs::read_to_string(&file).expect("read");
         let handle = std::thread::Builder::new().stack_size(256 << 20).spawn(move || {
             let mut vm = aelys_driver::new_vm_with_config(Default::default(), Vec::new()).unwrap();
+            let mut handles: std::collections::HashMap<String, aelys_driver::CallableFunction> = std::collections::HashMap::new();
             for (i, p) in text.split("\n=====\n").enumerate() {
                 let t = p.trim();
                 let r = if let Some(rest) = t.strip_prefix("@call ").or_else(|| t.strip_prefix("@cached ")).or_else(|| t.strip_prefix("@callx ")).or_else(|| t.strip_prefix("@cachedx ")) {
@@ -1071,6 +1157,20 @@ fn main() {
                     let name = it.next().unwrap_or("");
                     let a: i64 = it.next().and_then(|x| x.parse().ok()).unwrap_or(0);
                     host_call_n(&mut vm, name, a, t.starts_with("@cached"), t.starts_with("@callx") || t.starts_with("@cachedx"))
+                } else if t == "@gc every" || t == "@gc default" {
+                    aelys_runtime::verif::gc_mode_set(if t == "@gc every" { 2 } else { 0 }, 0);
+                    StepOut { class: "ok".into(), output: String::new(), value: String::new(), detail: String::new(), frames: vm.verif_frames_len() }
+                } else if let Some(name) = t.strip_prefix("@hold ") {
+                    // the host takes a handle (get_function) and keeps it; `@callheld NAME ARG` calls through it later
+                    let h = aelys_driver::get_function(&vm, name.trim());
+                    let cls = if h.is_ok() { "ok" } else { "runtime:NotCallable" };
+                    if let Ok(h) = h { handles.insert(name.trim().to_string(), h); }
+                    StepOut { class: cls.into(), output: String::new(), value: String::new(), detail: String::new(), frames: vm.verif_frames_len() }
+                } else if let Some(rest) = t.strip_prefix("@callheld ") {
+                    let mut it = rest.split_whitespace();
+                    let name = it.next().unwrap_or("").to_string();
+                    let a: i64 = it.next().and_then(|x| x.parse().ok()).unwrap_or(0);
+                    held_call(&mut vm, handles.get(&name), a)
                 } else if let Some(rest) = t.strip_prefix("@set ") {
                     // the host binds a global by name (VM::set_global)
                     let mut it = rest.split_whitespace();
